@@ -611,6 +611,7 @@ class ObjectMethod(DeserializationMethod):
                 requiring = sorted(field.required_by & data.keys())
                 error = ValidationError([self.missing + f" (required by {requiring})"])
                 field_errors = set_child_error(field_errors, field.alias, error)
+        invalid_aggregates: Optional[list] = None
         if self.aggregate_fields:
             remain = data.keys() - self.all_aliases
             for flattened_field in self.flattened_fields:
@@ -626,6 +627,9 @@ class ObjectMethod(DeserializationMethod):
                     )
                 except ValidationError as err:
                     if not flattened_field.fall_back_on_default:
+                        invalid_aggregates = extend_errors(
+                            invalid_aggregates, [flattened_field.name]
+                        )
                         errors = extend_errors(errors, err.messages)
                         field_errors = update_children_errors(
                             field_errors, err.children
@@ -643,6 +647,9 @@ class ObjectMethod(DeserializationMethod):
                     )
                 except ValidationError as err:
                     if not pattern_field.fall_back_on_default:
+                        invalid_aggregates = extend_errors(
+                            invalid_aggregates, [pattern_field.name]
+                        )
                         errors = extend_errors(errors, err.messages)
                         field_errors = update_children_errors(
                             field_errors, err.children
@@ -655,6 +662,9 @@ class ObjectMethod(DeserializationMethod):
                     ] = self.additional_field.method.deserialize(additional)
                 except ValidationError as err:
                     if not self.additional_field.fall_back_on_default:
+                        invalid_aggregates = extend_errors(
+                            invalid_aggregates, [self.additional_field.name]
+                        )
                         errors = extend_errors(errors, err.messages)
                         field_errors = update_children_errors(
                             field_errors, err.children
@@ -698,7 +708,12 @@ class ObjectMethod(DeserializationMethod):
                 error = ValidationError(errors or [], field_errors or {})
                 invalid_fields = self.post_init_modified
                 if field_errors:
-                    invalid_fields = invalid_fields | field_errors.keys()
+                    # validator dependencies are field names, errors are keyed by alias
+                    invalid_fields = invalid_fields | {
+                        field.name for field in self.fields if field.alias in field_errors
+                    }
+                if invalid_aggregates:
+                    invalid_fields = invalid_fields | set(invalid_aggregates)
                 try:
                     validate(
                         ValidatorMock(self.constructor.cls, values),
